@@ -242,6 +242,8 @@ def rule_d(model, rep):
               f"text branch starts {first}; 'true' in _true_set={isinstance(ts, (set, frozenset)) and 'true' in ts}; 'false' in _false_set={isinstance(fs, (set, frozenset)) and 'false' in fs}",
               "as_bool() lower-cases every text value before the table lookup, so the 'True'/'False' that to_string() writes for boolean options are read back",
               witness="CryptContext.from_string(ctx.to_string()) raises ValueError('unrecognized ... value: True') for a context with truncate_error=True")
+    from . import shared as _shared
+    _shared.rule_as_bool(model, rep, R)
     # None ("unset this option", the idiom copy(opt=None) uses) has no INI spelling: the writer must skip it rather than fail
     wp = model.func(CTX, "CryptContext._write_to_parser")
     skips_none = any(isinstance(n, ast.If) and ast.unparse(n.test) in ("v is None", "value is None") and n.body and isinstance(n.body[-1], ast.Continue) for n in walk_no_nested(wp))
